@@ -10,7 +10,7 @@ from ..ctx import engine
 from ..model import AnalysisError, Program
 from ..paths import SymPath, show
 from ..report import Report
-from .common import is_loop_var, HANDLE_FAILURE, REASON_EVENT, RUNNERS, SELF, attr, check_enums, emit_info, enum_name, is_emit, runner_paths
+from .common import is_attempt_no, is_loop_var, HANDLE_FAILURE, REASON_EVENT, RUNNERS, SELF, attr, check_enums, emit_info, enum_name, is_emit, runner_paths
 from .runner_flow import RunnerClient, flag1, run_runners, short_witness
 
 TERMINAL_NO_REASON = {"SUCCESS"}
@@ -65,26 +65,9 @@ class ProtocolClient(RunnerClient):
         return cs
 
 
-def run(rep: Report, prog: Program, tier: str) -> None:
-    check_enums(prog)
-    rep.explanation = (
-        "Protocol typestate over the four runners: every emit site is resolved to its EventName constant and classified "
-        "retry / terminal (success or carrying stop_reason=); automaton RUN -retry-> RUN, RUN -terminal-> DONE, any emit "
-        "in DONE is an error; at every exit that ends the run normally (return, AbortRetryError, RetryExhaustedError, the "
-        "operation's own exception) the state must be DONE and the stop reason delivered to the caller equals the "
-        "terminal event's tag. last_stop_reason facts are tracked so the `is not StopReason.ABORTED` guards are followed "
-        "precisely. Field tables (path enumeration): _RetryState.emit builds the tags once from the like-named "
-        "parameters and feeds both sinks on every path; the timeline wrapper records before delegating; "
-        "_emit_breaker_event reports attempt 0 / 0.0 / the breaker state; the retry event's attempt is the loop variable "
-        "and its sleep_s the sanitised delay."
-    )
-    rep.trusted_base = ["sa/absint.py, sa/paths.py", "stop-reason/event pairing table (docs/observability.md)"]
-    rep.assumptions = ["callbacks return normally; the run ends normally (value, failure, deferral or abort)", "a sleep handler returns a SleepDecision member"]
-    rep.not_decided = ["elapsed_s in timeline events (a clock reading)"]
-
-    rep.rule("R14.1", "protocol: retry* then exactly one terminal event on every path that ends the run normally")
-    rep.rule("R14.2", "the stop reason delivered to the caller (outcome.stop_reason / RetryExhaustedError.stop_reason) equals the terminal event's stop_reason tag")
-    res = run_runners(prog, lambda: ProtocolClient(prog))
+def protocol(rep: Report, r1: str, r2: str, prog: Program, which: tuple | None = None) -> dict[str, str]:
+    """event protocol (r1) and delivered-reason agreement (r2) over the runners; returns the emit sites reached"""
+    res = run_runners(prog, lambda: ProtocolClient(prog), which=which) if which else run_runners(prog, lambda: ProtocolClient(prog))
     sites: dict[str, str] = {}
     for name, (interp, exits, client) in res.items():
         q = RUNNERS[name]
@@ -93,22 +76,22 @@ def run(rep: Report, prog: Program, tier: str) -> None:
         for ex in exits:
             st, term, deliv, flags = ex.cstate
             construct = f"{name}|{ex.how}:{ex.kind}|{st}|{term}|{deliv}"
-            rep.instance("R14.1", construct, {"runner": q, "exit": f"{ex.how}:{ex.kind}", "protocol": st, "terminal": term} if len(rep.samples) < 16 else None)
+            rep.instance(r1, construct, {"runner": q, "exit": f"{ex.how}:{ex.kind}", "protocol": st, "terminal": term} if len(rep.samples) < 16 else None)
             if flags:
                 for f in sorted(flags):
-                    rep.fail("R14.1", f"{name}|{f}", f"{q}: {f}", where=prog.func(q).where(), function=q, path=short_witness(interp, ex))
+                    rep.fail(r1, f"{name}|{f}", f"{q}: {f}", where=prog.func(q).where(), function=q, path=short_witness(interp, ex))
                 continue
             normal_end = ex.how == "return" or ex.kind in ("AbortRetryError", "RetryExhaustedError", "OtherException")
             # an operation's own RetryExhaustedError (nested policy) propagates untouched: no terminal event is due
             nested = ex.how == "raise" and ex.kind == "RetryExhaustedError" and deliv is None
             if normal_end and not nested and st != "DONE":
-                rep.fail("R14.1", f"{name}|no-terminal-event|{ex.how}:{ex.kind}", f"{q}: the run ends by {ex.how} {ex.kind or ''} without a terminal event", where=prog.func(q).where(), function=q, path=short_witness(interp, ex))
+                rep.fail(r1, f"{name}|no-terminal-event|{ex.how}:{ex.kind}", f"{q}: the run ends by {ex.how} {ex.kind or ''} without a terminal event", where=prog.func(q).where(), function=q, path=short_witness(interp, ex))
                 continue
-            rep.ok("R14.1")
+            rep.ok(r1)
             if st != "DONE" or term is None:
                 continue
             ename, rname = term.split("/")
-            rep.instance("R14.2", construct)
+            rep.instance(r2, construct)
             problem = None
             if ex.how == "return" and name.endswith("execute"):
                 rv = ex.retval
@@ -132,9 +115,32 @@ def run(rep: Report, prog: Program, tier: str) -> None:
             elif ex.how == "return" and ename != "SUCCESS":
                 problem = f"call() returns a value but the terminal event is `{ename}`"
             if problem:
-                rep.fail("R14.2", f"{name}|{ex.how}:{ex.kind}|{term}|{deliv}", f"{q}: {problem}", where=prog.func(q).where(), function=q, path=short_witness(interp, ex))
+                rep.fail(r2, f"{name}|{ex.how}:{ex.kind}|{term}|{deliv}", f"{q}: {problem}", where=prog.func(q).where(), function=q, path=short_witness(interp, ex))
             else:
-                rep.ok("R14.2")
+                rep.ok(r2)
+    return sites
+
+
+def run(rep: Report, prog: Program, tier: str) -> None:
+    check_enums(prog)
+    rep.explanation = (
+        "Protocol typestate over the four runners: every emit site is resolved to its EventName constant and classified "
+        "retry / terminal (success or carrying stop_reason=); automaton RUN -retry-> RUN, RUN -terminal-> DONE, any emit "
+        "in DONE is an error; at every exit that ends the run normally (return, AbortRetryError, RetryExhaustedError, the "
+        "operation's own exception) the state must be DONE and the stop reason delivered to the caller equals the "
+        "terminal event's tag. last_stop_reason facts are tracked so the `is not StopReason.ABORTED` guards are followed "
+        "precisely. Field tables (path enumeration): _RetryState.emit builds the tags once from the like-named "
+        "parameters and feeds both sinks on every path; the timeline wrapper records before delegating; "
+        "_emit_breaker_event reports attempt 0 / 0.0 / the breaker state; the retry event's attempt is the loop variable "
+        "and its sleep_s the sanitised delay."
+    )
+    rep.trusted_base = ["sa/absint.py, sa/paths.py", "stop-reason/event pairing table (docs/observability.md)"]
+    rep.assumptions = ["callbacks return normally; the run ends normally (value, failure, deferral or abort)", "a sleep handler returns a SleepDecision member"]
+    rep.not_decided = ["elapsed_s in timeline events (a clock reading)"]
+
+    rep.rule("R14.1", "protocol: retry* then exactly one terminal event on every path that ends the run normally")
+    rep.rule("R14.2", "the stop reason delivered to the caller (outcome.stop_reason / RetryExhaustedError.stop_reason) equals the terminal event's stop_reason tag")
+    sites = protocol(rep, "R14.1", "R14.2", prog)
     rep.extra["emit_sites"] = sites
     if len(sites) < 15:
         raise AnalysisError(f"C14: only {len(sites)} emit sites reached (17 confirmed by reading)")
@@ -173,7 +179,7 @@ def run(rep: Report, prog: Program, tier: str) -> None:
                     a = e.args[-1] if e.args else None
                     a = e.kwargs.get("attempt", a)
                     rep.instance("R14.3", f"{name}|{e.label.split('.')[-1]}@{e.lineno}")
-                    if is_loop_var(a):
+                    if is_attempt_no(a, p):
                         rep.ok("R14.3")
                     else:
                         rep.fail("R14.3", f"{name}|attempt-arg|{e.label.split('.')[-1]}", f"{q}: {e.label.split(':')[-1]} receives attempt={show(a)}, expected the loop variable", where=f"{rf.module.relpath}:{e.lineno}", function=q)
@@ -285,7 +291,8 @@ def run(rep: Report, prog: Program, tier: str) -> None:
         dele = [e for e in p.calls() if e.callback() == "on_metric"]
         params = [("param", n) for n in hook.param_names()]
         rep.instance("R14.4", "timeline-hook|" + "|".join(p.describe()[-2:]))
-        ok = len(recs) == 1 and recs[0].args == params and all(d.args == params for d in dele) and len(dele) <= 1
+        # record(...) by the callee's parameter names (positional or keyword), in the order event, attempt, sleep_s, tags
+        ok = len(recs) == 1 and set(recs[0].kwargs) == {"event", "attempt", "sleep_s", "tags"} and all(recs[0].kwargs[k] == ("param", hook.param_names()[i]) for i, k in enumerate(("event", "attempt", "sleep_s", "tags"))) and all(d.args == params for d in dele) and len(dele) <= 1
         if dele:
             ok = ok and p.index_of(recs[0]) < p.index_of(dele[0])
         none_branch = any(a == ("cmp", "is", ("free", "on_metric"), ("const", None)) and pol for a, pol, _ in p.conds)
@@ -348,6 +355,95 @@ def run(rep: Report, prog: Program, tier: str) -> None:
         else:
             rep.fail("R14.5", f"emit_breaker_event|forward|none={none_ev}", f"ExecutionContext.emit_breaker_event does not forward event/state/klass/hooks unchanged: {p.describe()}", where=xf.where(), function=xf.qual)
     rep.floor("R14.5", 6)
+
+    rep.rule("R14.7", "the class / err / cause tags of a terminal event describe the final failure: terminal events emitted after the failure handling (scheduled, post-sleep deadline / attempt cap) take them from the run state's last_* fields or from the current failure's own arguments, and those fields are overwritten as a set by every failure (= C04 R4.4)")
+    ST7 = ("param", "state")
+    n7 = 0
+    for q7, allowed in (
+        ("redress.policy.retry_helpers:_handle_sleep_decision", {"klass": [attr(ST7, "last_class")], "exc": [attr(ST7, "last_exc")], "cause": [attr(ST7, "last_cause")]}),
+        ("redress.policy.retry_helpers:_finalize_attempt", {"klass": [attr(ST7, "last_class"), attr(("param", "classification"), "klass")], "exc": [("param", "exception"), attr(ST7, "last_exc")], "cause": [("param", "cause"), attr(ST7, "last_cause")]}),
+    ):
+        f7 = prog.func(q7)
+        rep.analysed(q7)
+        seen7: set = set()
+        for p in engine(prog).paths(f7):
+            for e in p.events:
+                if not is_emit(e):
+                    continue
+                info = emit_info(e)
+                if info["event_name"] in (None, "RETRY", "ABORTED", "SUCCESS"):
+                    continue
+                key = (e.node.lineno,)
+                if key in seen7:
+                    continue
+                seen7.add(key)
+                n7 += 1
+                rep.instance("R14.7", f"{q7.split(':')[1]}|{info['event_name']}")
+                bad = {k: show(info[k]) for k, v in allowed.items() if info[k] not in v}
+                if bad:
+                    rep.fail("R14.7", f"{q7.split(':')[1]}|{info['event_name']}|{sorted(bad)[0]}", f"{q7}: terminal event `{info['event_name']}` carries {bad}; expected the final failure's class / exception / cause", where=f7.where(e.node.ast), function=q7, path=p.describe())
+                else:
+                    rep.ok("R14.7")
+    if n7 < 3:
+        raise AnalysisError(f"R14.7: only {n7} terminal emit sites found after the failure handling (3 confirmed by hand)")
+    from .c04 import final_failure_state
+
+    final_failure_state(rep, "R14.7", prog)
+    rep.floor("R14.7", 12)
+
+    rep.rule("R14.6", "breaker events report what just happened: at every emit_breaker_event site the event is the answer of the breaker operation made on that path (allow().event / record_*()) and the state is the admission's own state or the breaker's state read after that operation")
+    CBQ = "redress.circuit:CircuitBreaker"
+    n_sites = 0
+    for fn in list(prog.funcs.values()):
+        if not fn.module.name.startswith("redress.policy"):
+            continue
+        if not any(isinstance(n, ast.Attribute) and n.attr == "emit_breaker_event" for n in prog._own_nodes(fn.node)):
+            continue
+        if fn.qual.endswith("ExecutionContext.emit_breaker_event"):
+            continue
+        rep.analysed(fn.qual)
+        seen6: set = set()
+        for p in engine(prog).paths(fn):
+            for e in p.calls(pure=None):
+                if not e.is_repo("ExecutionContext.emit_breaker_event"):
+                    continue
+                i_emit = p.index_of(e)
+                ops = [(p.index_of(x), x) for x in p.calls(pure=None) if any(t.func is not None and t.func.qual in (f"{CBQ}.allow", f"{CBQ}.record_success", f"{CBQ}.record_failure") for t in x.targets) and p.index_of(x) < i_emit]
+                ev_arg = e.args[0] if e.args else e.kwargs.get("event")
+                st_arg = e.args[1] if len(e.args) > 1 else e.kwargs.get("state")
+                st_ast = e.node.ast.args[1] if len(e.node.ast.args) > 1 else next((k.value for k in e.node.ast.keywords if k.arg == "state"), None)
+                key = (e.node.lineno, show(ev_arg), show(st_arg), bool(ops))
+                if key in seen6:
+                    continue
+                seen6.add(key)
+                n_sites += 1
+                rep.instance("R14.6", f"{fn.qual}|L{e.node.lineno}")
+                problem = None
+                if not ops:
+                    problem = "no breaker operation precedes the event on this path"
+                else:
+                    i_op, op = ops[-1]
+                    is_allow = any(t.func is not None and t.func.qual == f"{CBQ}.allow" for t in op.targets)
+                    want_ev = attr(op.result, "event") if is_allow else op.result
+                    if ev_arg != want_ev:
+                        problem = f"the event reported is {show(ev_arg)}, not the answer of {op.label.split(':')[-1]}"
+                    elif is_allow and st_arg == attr(op.result, "state"):
+                        pass
+                    elif isinstance(st_arg, tuple) and st_arg[0] == "attr" and st_arg[2] == "state" and st_arg[1] == op.recv:
+                        # the breaker's state property: it must be read after the operation
+                        if isinstance(st_ast, ast.Name):
+                            reads = [i for i, it in enumerate(p.items) if it[0] == "ev" and it[1].kind == "lstore" and it[1].loc == ("local", st_ast.id) and i < i_emit]
+                            if not reads or reads[-1] < i_op:
+                                problem = f"the state reported was read (into `{st_ast.id}`) before {op.label.split('.')[-1]}() changed it"
+                    else:
+                        problem = f"the state reported is {show(st_arg)}, not the state of the breaker that was just told"
+                if problem:
+                    rep.fail("R14.6", f"{fn.qual}|{problem[:50]}", f"{fn.qual}: {problem}", where=fn.where(e.node.ast), function=fn.qual, path=p.describe())
+                else:
+                    rep.ok("R14.6")
+    if n_sites < 4:
+        raise AnalysisError(f"R14.6: only {n_sites} emit_breaker_event sites found (5 confirmed by hand)")
+    rep.floor("R14.6", 4)
 
 
 def present_attr(lits: dict, name: str) -> bool | None:
